@@ -35,6 +35,9 @@ LogicCases ==
   {Case("and-" \o ToString(a) \o ToString(b), <<>>, AndE(TB(1, a), TB(2, b)), WBool, IF a THEN <<1, 2>> ELSE <<1>>) : a \in BOOLEAN, b \in BOOLEAN}
   \cup {Case("or-" \o ToString(a) \o ToString(b), <<>>, OrE(TB(1, a), TB(2, b)), WBool, IF a THEN <<1>> ELSE <<1, 2>>) : a \in BOOLEAN, b \in BOOLEAN}
   \cup {Case("and-lit-" \o ToString(a), <<>>, AndE(B(a), TB(1, TRUE)), WBool, IF a THEN <<1>> ELSE <<>>) : a \in BOOLEAN}
+  \* a literal RIGHT operand never excuses the left one
+  \cup {Case("and-rlit-" \o ToString(a) \o ToString(b), <<>>, AndE(TB(1, a), B(b)), WBool, <<1>>) : a \in BOOLEAN, b \in BOOLEAN}
+  \cup {Case("or-rlit-" \o ToString(a) \o ToString(b), <<>>, OrE(TB(1, a), B(b)), WBool, <<1>>) : a \in BOOLEAN, b \in BOOLEAN}
   \cup {Case("or-lit-" \o ToString(a), <<>>, OrE(B(a), TB(1, TRUE)), WBool, IF a THEN <<>> ELSE <<1>>) : a \in BOOLEAN}
   \cup {Case("and-or-" \o ToString(a) \o ToString(b), <<>>, OrE(AndE(TB(1, a), TB(2, b)), TB(3, TRUE)), WBool,
              IF a THEN (IF b THEN <<1, 2>> ELSE <<1, 2, 3>>) ELSE <<1, 3>>) : a \in BOOLEAN, b \in BOOLEAN}
